@@ -33,6 +33,9 @@ LEVEL_TEXT = (
 )
 LEVEL_NOTE = "Trusted: Hypothesis, the settings generators of the format table, vpchk/refs for forms using() cannot produce."
 TECHNIQUE = "Hypothesis round-trip / idempotence testing of parse and render over generated settings and accepted variants"
+#: thorough tier: seed-dependent tasks are repeated under this many derived seeds (run.py); the listed task functions enumerate fixed domains
+THOROUGH_REPS = 6
+DETERMINISTIC_FNS = ('t_small_fields', 't_inspect_bank')
 
 HEXCASE = {"hex_md4", "hex_md5", "hex_sha1", "hex_sha256", "hex_sha512", "nthash", "lmhash", "msdcc", "msdcc2", "mysql323", "mysql41",
            "mssql2000", "mssql2005", "oracle10", "oracle11", "postgres_md5", "django_salted_md5", "django_salted_sha1", "grub_pbkdf2_sha512",
